@@ -22,7 +22,7 @@ BUILD = os.environ.get("VERIF_BUILD", os.path.join(VERIF, "build"))
 REPO_BUILD = os.path.join(BUILD, "repo")
 COQ = os.path.join(VERIF, "coq")
 GUARD = "DANMAR_CPPCHECK_VERIF"
-CPPCHECK = os.path.join(REPO_BUILD, "bin", "cppcheck")
+CPPCHECK = os.environ.get("VERIF_CPPCHECK", os.path.join(REPO_BUILD, "bin", "cppcheck"))
 NPROC = os.cpu_count() or 4
 
 
